@@ -13,7 +13,9 @@ import (
 // nextUpdate, thisUpdate) is shifted by the same amount so that durations are
 // kept. offMin != 0 encodes the same instant in a +hhmm zone. nil when the
 // parser does not accept the result.
-func redate(o *mon.Obj, target time.Time, offMin int) *mon.Obj { return redateX(o, target, offMin, false) }
+func redate(o *mon.Obj, target time.Time, offMin int) *mon.Obj {
+	return redateX(o, target, offMin, false)
+}
 
 // redateX with keep leaves the companion date where it is.
 func redateX(o *mon.Obj, target time.Time, offMin int, keep bool) *mon.Obj {
